@@ -79,6 +79,13 @@ CLAIMS.update({
          "3.9, 4 (C11)"),
 })
 
+CLAIMS.update({
+ "C22": ("call-graph enumeration of exit/panic sites against an audited table; path-based stage gating; plus CYCLE/ESCAPE/CURSOR/UNITS rules",
+         "Decides that no new process-exit or panic site became reachable from compiler.Compile, that a failed pipeline stage stops the pipeline, that recursion over cyclic sets is guarded, that the grammar lexer cannot index or advance past the end of the text, and that diagnostic columns stay in byte units. Necessary conditions of crash freedom; arbitrary index/nil panics on malformed models are not decided.",
+         "CHA call graph (VTA in the thorough tier), restricted to the import closure of package compiler; audit justifications are human-written invariants, several of them backed by other rules of this framework.",
+         "3.8, 4 (C22)"),
+})
+
 NA = {
 }
 
